@@ -24,6 +24,7 @@
 From ClapModel Require Import Base.Bytes Base.Machine Base.Utf8.
 From ClapModel Require Import Parse.Cmd Parse.Build Parse.Valid Parse.Matcher Parse.Errors Parse.Validator Parse.Parser.
 From ClapModel Require Import ParseProofs.Safe ParseProofs.Totality ParseProofs.TotalityMain ParseProofs.ActionsLoop.
+From ClapModel Require ParseProofs.SitesGuards.
 From ClapModel Require Gen.ParseSites.
 From Coq Require Import ZArith String.
 From RecordUpdate Require Import RecordSet.
@@ -50,6 +51,18 @@ Definition P_react_values_done : Prop :=
 Definition P_built : Prop :=
   (forall c, is_set s_built (build_self c) = true)
   /\ (forall c n sc, build_subcommand c n = Some sc -> is_set s_built sc = true).
+
+(** arg_matcher.rs [start_occurrence_of_external] / matched_arg.rs [new_external]:
+    [cmd.get_external_subcommand_value_parser().expect(..)]; that function returns [Some] iff AllowExternalSubcommands is
+    set, and [Parser::parse] reaches the two functions only through the loop result [LExternal] (round 5: was prose) *)
+Definition P_external_guarded : Prop :=
+  forall c toks ls st name vals st',
+    parse_loop c toks ls st = ROk (LExternal name vals st') -> is_set s_allow_external c = true.
+(** validator.rs [missing_required_error], `not(feature = "usage")` arm: [debug_assert!(false, "id={id:?} is unknown")] for an
+    id of [raw_req_args] that is neither an argument nor a group (round 5: was prose) *)
+Definition P_missing_known : Prop :=
+  forall c mt potential missing, missing_required c mt potential = Some missing ->
+    forall i, In i missing -> id_exists c i = true.
 
 Lemma help_walk_unwrap : P_help_walk_unwrap.
 Proof.
@@ -135,7 +148,7 @@ Definition model_site_table : list (site_key * disposition) := [
   ((F_MATCHER, "ArgMatcher::start_occurrence_of_external", "debug_assert_eq!", 0),
      Reasoned "outside the model (TypeId); same Option as the next row");
   ((F_MATCHER, "ArgMatcher::start_occurrence_of_external", "expect", 0),
-     Reasoned "called from Parser::parse only inside `else if let Some(external_parser) = self.cmd.get_external_subcommand_value_parser()`: the same call on the same command has just returned Some (model: the LExternal branch is guarded by s_allow_external)");
+     Proved P_external_guarded "get_external_subcommand_value_parser() is Some iff AllowExternalSubcommands is set; the function is called only for the loop result LExternal, which the loop returns only under that setting");
   ((F_MATCHER, "ArgMatcher::add_val_to", "expect", 0), Modelled S_add_val_to);
   ((F_MATCHER, "ArgMatcher::add_index_to", "expect", 0), Modelled [1105]);
   ((F_MATCHER, "ArgMatcher::needs_more_vals", "expect", 0), Modelled [299]);
@@ -143,14 +156,14 @@ Definition model_site_table : list (site_key * disposition) := [
   ((F_MATCHER, "ArgMatcher::pending_values_mut", "debug_assert_eq!", 1), Modelled S_pending_values);
   (* ---- matched_arg.rs ---- *)
   ((F_MARG, "MatchedArg::new_external", "expect", 0),
-     Reasoned "reached only through start_occurrence_of_external, after that function's own expect on the same Option (row above)");
+     Proved P_external_guarded "reached only through start_occurrence_of_external (same Option, same guard)");
   ((F_MARG, "MatchedArg::append_val", "expect", 0), Modelled S_add_val_to);   (* vals.last_mut(): append_val = None *)
   ((F_MARG, "MatchedArg::append_val", "expect", 1), Modelled S_add_val_to);   (* raw_vals.last_mut() *)
   (* ---- validator.rs ---- *)
   ((F_VALID, "Validator::build_conflict_err", "expect", 0), Modelled [147]);
   ((F_VALID, "Validator::build_conflict_err", "expect", 1), Modelled [153]);
   ((F_VALID, "Validator::missing_required_error", "debug_assert!", 0),
-     Reasoned "error construction (usage of the missing arguments), not modelled: the ids are those collected by validate_required, each pushed right after cmd.find / cmd.find_group returned it (model: missing_required pushes a_id a / g_id g of a found a / g only)");
+     Proved P_missing_known "the ids handed to missing_required_error are those validate_required collected, each the id of an argument or group of the command");
   ((F_VALID, "gather_direct_conflicts", "debug_assert!", 0), Modelled S_gather_conflicts);
   ((F_VALID, "gather_arg_direct_conflicts", "expect", 0), Modelled S_gather_conflicts);
   (* ---- command.rs, functions reachable from the parser ---- *)
@@ -196,7 +209,8 @@ Proof.
   repeat (destruct H as [H|H];
           [first [discriminate H
                  | injection H as _ HP _; rewrite <- HP;
-                   first [exact help_walk_unwrap|exact react_values_done|exact built_levels]]|]).
+                   first [exact help_walk_unwrap|exact react_values_done|exact built_levels
+                         |exact SitesGuards.external_guarded|exact SitesGuards.missing_known]]|]).
   destruct H.
 Qed.
 
@@ -210,9 +224,6 @@ Theorem sites_reasoned_rows :
       ("parser/arg_matcher.rs", "ArgMatcher::start_custom_arg", "debug_assert_eq!", 0);
       ("parser/arg_matcher.rs", "ArgMatcher::start_custom_group", "debug_assert_eq!", 0);
       ("parser/arg_matcher.rs", "ArgMatcher::start_occurrence_of_external", "debug_assert_eq!", 0);
-      ("parser/arg_matcher.rs", "ArgMatcher::start_occurrence_of_external", "expect", 0);
-      ("parser/matches/matched_arg.rs", "MatchedArg::new_external", "expect", 0);
-      ("parser/validator.rs", "Validator::missing_required_error", "debug_assert!", 0);
       ("builder/command.rs", "Command::_build_subcommand", "unwrap", 0);
       ("builder/command.rs", "Command::_build_subcommand", "unwrap", 1);
       ("builder/command.rs", "Command::format_group", "unwrap", 0) ]%string.
